@@ -4,6 +4,7 @@ import TsV.Model.Lang.Swift
 import TsV.Model.Lang.Scala
 import TsV.Model.Lang.Go
 import TsV.Model.Lang.Python
+import TsV.Model.Parser
 /-!
 # C15 — specification side (trusted definitions)
 
@@ -17,7 +18,11 @@ import TsV.Model.Lang.Python
   strings);
 * `contained`: the lexer, started in `code`, is in a comment state before *and* after every flagged
   character, and is back in `code` at the end of the block;
-* `Bad`: the decidable description of the doc strings that break containment.
+* `Bad`: the decidable description of the strings that break containment when handed to a renderer
+  (after the repairs: no string at all for TypeScript and for Python docstrings; a string with a
+  line terminator of the target language for the line-comment renderers — which the parser never
+  produces for `\n` / `\r`, see `Lemmas/C15.lean` section 8);
+* `KnownScalaSub`: the residual class (Scala only: an entry containing U+001A).
 -/
 namespace TsV.C15
 open TsV TsV.Lang
@@ -173,10 +178,13 @@ def render (sty : Style) (U : UnicodeOps) (indent : Nat) (cs : List Str) : Str :
   | .pyDoc => Python.docstring indent cs
   | .pyHash => Python.hashComments indent cs
 
-/-- what the printer does to one doc string before writing it -/
+/-- what the printer does to one doc string before writing it: TypeScript writes `*/` as `*\/`, the
+Python docstring writer `\"\"\"` as `\\\"\\\"\\\"`, Swift strips trailing white space -/
 def written (sty : Style) (U : UnicodeOps) (c : Str) : Str :=
   match sty with
+  | .typescript => TypeScript.escapeDoc c
   | .swift => Swift.trimEnd U c
+  | .pyDoc => Python.escapeDoc c
   | _ => c
 
 /-- the same text with the origin of every character -/
@@ -185,10 +193,11 @@ def renderT (sty : Style) (U : UnicodeOps) (indent : Nat) (cs : List Str) : TStr
   | .typescript =>
     match cs with
     | [] => []
-    | [c] => P (tabs indent ++ s%"/** ") ++ D c ++ P (s%" */" ++ nl)
+    | [c] => P (tabs indent ++ s%"/** ") ++ D (TypeScript.escapeDoc c) ++ P (s%" */" ++ nl)
     | _ =>
       P (tabs indent ++ s%"/**\n" ++ tabs indent ++ s%" * ") ++
-        tInter (P (nl ++ tabs indent ++ s%" * ")) (cs.map D) ++ P (nl ++ tabs indent ++ s%" */" ++ nl)
+        tInter (P (nl ++ tabs indent ++ s%" * ")) (cs.map fun c => D (TypeScript.escapeDoc c)) ++
+        P (nl ++ tabs indent ++ s%" */" ++ nl)
   | .kotlin => cs.flatMap fun c => P (tabs indent ++ s%"/// ") ++ D c ++ P nl
   | .swift => cs.flatMap fun c => P (tabs indent ++ s%"/// ") ++ D (Swift.trimEnd U c) ++ P nl
   | .scala => cs.flatMap fun c => P (tabs indent ++ s%"// ") ++ D c ++ P nl
@@ -196,7 +205,7 @@ def renderT (sty : Style) (U : UnicodeOps) (indent : Nat) (cs : List Str) : TStr
   | .pyDoc =>
     if cs.isEmpty then [] else
     P (Python.indent indent ++ s%"\"\"\"\n") ++
-      tInter (P nl) (cs.map fun c => P (Python.indent indent) ++ D c) ++
+      tInter (P nl) (cs.map fun c => P (Python.indent indent) ++ D (Python.escapeDoc c)) ++
       P (nl ++ Python.indent indent ++ s%"\"\"\"" ++ nl)
   | .pyHash =>
     if cs.isEmpty then [] else
@@ -225,20 +234,35 @@ def unescapedTripleQuote : Bool → Str → Bool
     if c = '\\' then unescapedTripleQuote true rest
     else Str.startsWith (c :: rest) s%"\"\"\"" || unescapedTripleQuote false rest
 
-/-- the doc strings that are *not* carried inside the comment:
+/-- the strings that are *not* carried inside the comment when a renderer is handed them, in terms
+of the text the printer writes for them (`written`):
 * line-comment back ends (Kotlin, Swift `///`; Scala, Go `//`; Python `#`): the written string
   contains a character that ends a line comment of that language;
-* TypeScript: the string contains `*/` (line breaks are harmless inside `/** */`);
-* Python docstrings: the string contains an unescaped `"""` (a trailing `"` or `\` is harmless,
-  because the printer puts the closing `"""` on a line of its own). -/
+* TypeScript: the written string contains `*/` (line breaks are harmless inside `/** */`) — never,
+  `Bad_typescript`;
+* Python docstrings: the written string contains an unescaped `"""` (a trailing `"` or `\` is
+  harmless, because the printer puts the closing `"""` on a line of its own) — never, `Bad_pyDoc`. -/
 def Bad (sty : Style) (U : UnicodeOps) (c : Str) : Bool :=
   match sty with
-  | .typescript => Str.containsSub c s%"*/"
+  | .typescript => Str.containsSub (TypeScript.escapeDoc c) s%"*/"
   | .kotlin => c.any kotlinSyntax.eol
   | .swift => (Swift.trimEnd U c).any swiftSyntax.eol
   | .scala => c.any scalaSyntax.eol
   | .go => c.any goSyntax.eol
-  | .pyDoc => unescapedTripleQuote false c
+  | .pyDoc => unescapedTripleQuote false (Python.escapeDoc c)
   | .pyHash => c.any pyEol
+
+/-! ## from the `#[doc]` strings of an item to the comment block -/
+
+/-- the comment entries the parser makes of the `#[doc = ".."]` strings of one item
+(`parse_comment_attrs`: each string trimmed, split at `\n`, `\r\n`, lone `\r`, each line trimmed) -/
+abbrev entries (U : UnicodeOps) (docs : List Str) : List Str := Parser.docEntries U docs
+
+/-- U+001A (SUB): Scala's scanner ends a `//` comment there (it is its end-of-input marker) -/
+def isSub (c : Char) : Bool := c.toNat = 0x1A
+
+/-- the residual class: the Scala renderer, and some comment entry contains U+001A -/
+def KnownScalaSub (sty : Style) (U : UnicodeOps) (docs : List Str) : Bool :=
+  sty == .scala && (entries U docs).any fun e => e.any isSub
 
 end TsV.C15
